@@ -98,6 +98,9 @@ func (c c13Case) declText(pos string) string {
 		fmt.Fprintf(&sb, "%s := exec(\"printf '  \\n %s \\t\\n\\n'\")\n", c.Name, c.Value)
 	case "execraw":
 		fmt.Fprintf(&sb, "%s := exec(\"%s\")\n", c.Name, c.Cmd)
+	case "exectwice":
+		// each evaluation appends a line to a counter file and yields the number of lines so far
+		fmt.Fprintf(&sb, "FIRST := exec(\"echo l >> $CNT; wc -l < $CNT\")\n%s := exec(\"echo l >> $CNT; wc -l < $CNT\")\n", c.Name)
 	case "execbig":
 		fmt.Fprintf(&sb, "%s := exec(\"head -c %s /dev/zero | tr '\\0' a\")\n", c.Name, c.Value)
 	case "execfail":
@@ -129,7 +132,7 @@ func c13Cases(tier string) []c13Case {
 			out = append(out, c13Case{Name: n, Kind: "string", Value: v, Twin: true})
 		}
 	}
-	partsets := [][]string{{"a"}, {"a", "b"}, {".", "bin"}, {"..", "x"}, {""}, {"", "a"}, {"a", ""}, {"a", "..", "b"}, {"a/b", "c"}, {"a", ".", "b"}, {"./a/", "b/"}, {"..", ".."}, {}, {"/abs", "x"}, {"a", "/b"}, {"a", "b", "c", "d"}, {"a//b", "./c/../d"}}
+	partsets := [][]string{{"cur", "bin"}, {"cur"}, {"lnkfile"}, {"rel", "v2", "bin"}, {"cur", "..", "cur", "bin"}, {"a"}, {"a", "b"}, {".", "bin"}, {"..", "x"}, {""}, {"", "a"}, {"a", ""}, {"a", "..", "b"}, {"a/b", "c"}, {"a", ".", "b"}, {"./a/", "b/"}, {"..", ".."}, {}, {"/abs", "x"}, {"a", "/b"}, {"a", "b", "c", "d"}, {"a//b", "./c/../d"}}
 	for _, ps := range partsets {
 		for _, n := range []string{"V", "HOME"} {
 			for _, nested := range []bool{false, true} {
@@ -157,6 +160,8 @@ func c13Cases(tier string) []c13Case {
 	for _, n := range []string{"131069", "131070", "131071", "200000"} {
 		out = append(out, c13Case{Name: "V", Kind: "execbig", Value: n}, c13Case{Name: "AMB", Kind: "execbig", Value: n})
 	}
+	// two variables defined by the very same command text, whose output differs from one evaluation to the next
+	out = append(out, c13Case{Name: "V", Kind: "exectwice"}, c13Case{Name: "AMB", Kind: "exectwice"})
 	// exec whose command reads a variable that only the .env file provides
 	out = append(out, c13Case{Name: "V", Kind: "execraw", Cmd: `echo got-$DOT`, Value: "got-dotvalue"})
 	// exec whose command writes to standard error, and nothing or only white space to standard output
@@ -185,6 +190,14 @@ func c13Run(root string, c c13Case) (obs []c13Obs, inv int) {
 	home := filepath.Join(root, "home")
 	t.File("home/w/proj/spokfile", c.text())
 	t.File("home/w/proj/.env", "DOT=dotvalue\nBOTH=dotboth\n")
+	// paths that exist and lead through symbolic links (join() is about text, not about the file system)
+	for _, base := range []string{"home/w/proj", "home/w/proj/nest/deeper"} {
+		t.File(base+"/rel/v2/bin", "x\n")
+		os.Symlink("rel/v2", filepath.Join(root, base, "cur"))
+		os.Lchown(filepath.Join(root, base, "cur"), 65534, 65534)
+		os.Symlink("rel/v2/bin", filepath.Join(root, base, "lnkfile"))
+		os.Lchown(filepath.Join(root, base, "lnkfile"), 65534, 65534)
+	}
 	env := []string{"AMB=ambientvalue", "BOTH=ambboth", "UNTOUCHED=u"}
 	cwd := proj
 	if c.Nested {
@@ -198,6 +211,26 @@ func c13Run(root string, c c13Case) (obs []c13Obs, inv int) {
 		if !filepath.IsAbs(want) {
 			want = filepath.Join(cwd, want)
 		}
+	case "exectwice":
+		ctl := t.Mkdir("ctl")
+		os.Chmod(ctl, 0o777)
+		cnt := filepath.Join(ctl, "cnt")
+		o := bin.Run(cwd, home, append(env, "CNT="+cnt), "--vars")
+		inv++
+		if o.Exit != 0 || o.Died() {
+			return []c13Obs{{"unexpected-failure", fmt.Sprintf("--vars: exit=%d %s", o.Exit, firstLines(o.Stderr, 3))}}, inv
+		}
+		got := map[string]string{}
+		for _, l := range strings.Split(o.Stdout, "\n") {
+			if f := strings.Fields(l); len(f) == 2 {
+				got[f[0]] = f[1]
+			}
+		}
+		lines := len(readLog(cnt))
+		if got["FIRST"] != "1" || got[c.Name] != "2" || lines != 2 {
+			obs = append(obs, c13Obs{"exec-not-evaluated-per-variable", fmt.Sprintf("FIRST and %s are both defined as exec of a command that appends a line to a file and prints the line count: --vars shows FIRST=%q %s=%q and the command ran %d time(s); expected 1, 2 and two runs", c.Name, got["FIRST"], c.Name, got[c.Name], lines)})
+		}
+		return
 	case "execbig":
 		ctl := t.Mkdir("ctl")
 		o := bin.Run(cwd, home, append(env, "VCTL="+ctl), "envt", "--json")
